@@ -154,6 +154,7 @@ def verus_route(pid, tier):
     # big units first
     jobs.sort(key=lambda j: -os.path.getsize(j[1]))
     res = pl.run_many(jobs)
+    n_retry = pl.retry_undecided(jobs, res)
     for u, uf in ufs.items():
         if cfg.get("only_exec"):
             res[(u, "nl")] = None
@@ -162,7 +163,7 @@ def verus_route(pid, tier):
             res[(u, "nl")] = pl.merge_results([res[(u, k)] for k in uf.nl_modes])
         res[(u, "root")] = pl.merge_results([res[(u, "root")]] + [res[(u, k)] for k in uf.ex_modes])
     obs = []
-    info = dict(units={}, expand_s=round(t_exp, 1))
+    info = dict(units={}, expand_s=round(t_exp, 1), modules_rerun_after_resource_limit=n_retry)
     for u, uf in ufs.items():
         o = pl.classify(uf, res[(u, "root")], res[(u, "nl")], res[(u, "canary")])
         obs += o
@@ -308,13 +309,28 @@ def main(argv):
                 f.write("no failing input found by the replay search: %s\n\n" % note)
             for o, _ in new_fail:
                 f.write("== obligation %s\n   what: %s\n   verifier output:\n%s\n" % (o.key(), o.what, o.detail))
+        only_gated = all(getattr(o, "gated", False) for o, _ in new_fail)
+        if only_gated and not witness:
+            # every failed obligation is a proof script tied to the operation sequence of a composite body (composition
+            # lemma / hinted definedness) and no input distinguishes the real code from the oracle: the script may simply
+            # no longer fit a restructured but equivalent body -- undecided, not an alarm
+            for o, _ in new_fail[:12]:
+                print("UNDECIDED-OBLIGATION property=%s %s :: %s" % (pid, o.key(), o.what))
+            print("UNDECIDED property=%s: %d structure-dependent proof obligation(s) failed and no failing input was found (%s); details in %s" % (pid, len(new_fail), note, replay_path))
+            for o, _ in new_fail:
+                o.status = "undecided"
+            undecided = undecided + [o for o, _ in new_fail]
+            failed = [o for o in failed if o.status == "failed"]
+            new_fail = []
+            rc = 2
         for o, _ in new_fail[:12]:
             print("FAILED-OBLIGATION property=%s %s :: %s" % (pid, o.key(), o.what))
-        if witness or any(getattr(o, "has_cex", False) for o, _ in new_fail):
-            print("VIOLATION property=%s replay=%s" % (pid, replay_path))
-        else:
-            print("VIOLATION property=%s replay=%s no-failing-input-found" % (pid, replay_path))
-        rc = 1
+        if new_fail:
+            if witness or any(getattr(o, "has_cex", False) for o, _ in new_fail):
+                print("VIOLATION property=%s replay=%s" % (pid, replay_path))
+            else:
+                print("VIOLATION property=%s replay=%s no-failing-input-found" % (pid, replay_path))
+            rc = 1
     elif undecided:
         for o in undecided[:12]:
             print("UNDECIDED-OBLIGATION property=%s %s\n%s" % (pid, o.key(), o.detail[:600]))
